@@ -56,8 +56,12 @@ STR_POOL = {
     "empty":   [""],
     "keyword": ["true", "false"],
     "quotes":  ["/node", "two words", "2morrow", "/a/b:c?d=1&e", "@tag", "a,b)c(", "{x:1}", "#h;"],
-    "escape":  ["say \"hi\"", "back\\slash", "\"", "\\", "a\\\"b", "\\n"],
-    "control": ["line1\nline2", "tab\there", "\u0001", "\r\n", "\u0008\u000c", "nul\u0000x", "\u001f"],
+    # (the second row of each: an escape-requiring character together with 2-, 3- and 4-byte UTF-8 characters - the
+    #  escaping must work on characters, not bytes)
+    "escape":  ["say \"hi\"", "back\\slash", "\"", "\\", "a\\\"b", "\\n",
+                "/unit/\"caf\u00e9\"", "\u00e9\\", "\"\u4e2d\u6587\"", "\U0001f600\"", "\\\U0001d4b3/\u00fc\u20ac\"x"],
+    "control": ["line1\nline2", "tab\there", "\u0001", "\r\n", "\u0008\u000c", "nul\u0000x", "\u001f",
+                "\u00e9\n", "\t\u4e2d\u6587", "\u0001\U0001f600", "\u00df\u20ac\U00010348\r"],
     "nonbmp":  ["/\U0001f600/\U0001d4b3", "\U0001f600 x", "9\U00010000", "/\U000effff"],
     "percent": ["/a%20b", "%2F", "/caf%C3%A9/%25", "100%", "%zz"],
 }
